@@ -30,6 +30,12 @@ CHECKS = {
         text="PROVED for all inputs (frame condition): no file-system write site in the call-graph closure of exmod is reachable when dry_run is true (one obligation per write site, flag followed through keyword/positional/partial passing, with cover obligations against vacuity). "
              "BOUNDED, not proved: containment under the output directory, validity of generated files and their __all__, source package untouched, blacklist/whitelist — real CLI over a stated option matrix on a generated package. One known finding (output directory named 'gold').",
         note="Assumed: call graph over-approximates real calls; FS_WRITE primitive table complete; the path-taint contract of DESIGN §5 C20(b) was not built."),
+    "C18": dict(
+        category="proof", design_ref="DESIGN.md §5 C18, §2.3",
+        technique="deductive check in an exact model of CPython's import protocol over the module-level statements of the real files (E3), one obligation per entry module and per first module of all ordered pairs; every verdict replayed in real fresh interpreters",
+        text="In the import model every one of the non-test modules imports cleanly as the first import and every ordered pair imports in both orders with the same public names (89 + 89 obligations covering 89 + 7832 import sequences). "
+             "Single-module imports are additionally replayed exhaustively in real interpreters on every run (the domain is finite, so that half of the property is decided completely); pairs by seeded sample (quick) or exhaustively (thorough).",
+        note="The import model is trusted only as far as it agrees with the interpreter (disagreement = exit 3); environment fixed to this sandbox (optional third-party packages, Python 3.12 version flags)."),
 }
 
 NA_REASON = "check not built yet (work in progress; see DESIGN.md for the plan)"
@@ -47,6 +53,7 @@ m = {
     "engines": [
         {"name": "cddvc-E1", "path": "cddvc/symexec.py", "serves_properties": sorted(CHECKS), "kind_free_text": "AST -> verification conditions (symbolic execution with contracts, loop invariants/variants, abstract list views) discharged by z3 5.1 / cvc5 / z3 4.8"},
         {"name": "cddvc-E2", "path": "cddvc/effects.py", "serves_properties": ["C17", "C20"], "kind_free_text": "effect / frame checker over the call graph, flag-guard dominance; cddvc/charset.py refinement check"},
+        {"name": "cddvc-E3", "path": "cddvc/imports.py", "serves_properties": ["C18"], "kind_free_text": "import-protocol simulator over module-level statements + real-interpreter replay"},
         {"name": "cddvc-E5", "path": "cddvc/termination.py", "serves_properties": ["C11"], "kind_free_text": "termination rules over the import-aware call graph (cddvc/callgraph.py)"},
     ],
     "checks": [],
